@@ -65,6 +65,29 @@ def inputs(tier):
     return out
 
 
+# Suite variants: the shipped/mini suite customised the way a user does it (~/avocado_overwrite_tests.cfg), to reach graph shapes the sample
+# suite does not contain.  Each variant: (name, overwrite text, inputs)
+SUITE_VARIANTS = [
+    ("multi-object-edge",
+     "tutorial_gui.client_clicked:\n    set_state_images_vm1 = guisetup1.clicked\n"
+     "tutorial_get.explicit_clicked:\n    get_images_vm1 = tutorial_gui.client_clicked\n    get_state_images_vm1 = guisetup1.clicked\n",
+     [("XC", "only leaves..tutorial_get.explicit_clicked\n"), ("XGG", "only leaves\nonly tutorial_gui,tutorial_get\n")]),
+    ("two-setups-one-vm",
+     # a leaf that takes its vm state and its image state from two different setup tests of the same vm
+     "quicktest.tutorial1:\n    get_images = connect\n    get_state_images = connect\n",
+     [("XT1", "only normal..tutorial1\n"), ("XT12", "only normal\nonly tutorial1,tutorial2\n")]),
+]
+
+
+def variant_inputs(tier):
+    out = []
+    for name, text, restrs in SUITE_VARIANTS:
+        for rn, r in restrs:
+            for nets in ("net1", "net1 net2"):
+                out.append({"id": f"{rn}@{name}/default/{nets.replace(' ', '+')}", "restriction": r, "vm_strs": DEFAULT_VMS, "nets": nets, "variant": name})
+    return out
+
+
 # ------------------------------------------------------------------------------------------------
 # facts
 # ------------------------------------------------------------------------------------------------
